@@ -2,6 +2,9 @@
 import os
 import sys
 from props_common import *
+import os, sys
+sys.path.insert(0, os.path.join(os.path.dirname(os.path.abspath(__file__)), "tools"))
+from gen_eph import gen_eph
 
 
 def rand_ym(rng):
@@ -152,7 +155,10 @@ PROP = {
     "thm_file": "Tyme/Thm/C10.lean",
     "lean_targets": ["Tyme.Thm.C10"],
     "audit_files": ["Tyme/Lemmas/Cache.lean", "Tyme/Model/Cache.lean", "Tyme/Model/ObjMemo.lean", "Tyme/Model/ProviderLock.lean"],
-    "streams": [],
+    "gen": [gen_eph],
+    "streams": [
+        {"name": "c10.warm", "spec": False},   # all 123,684 lunations + 10,000 year records asked a second time in one process (warm memo)
+    ],
     "ops": c10_ops,
     "extra_checks": [c10_histories],
     "exhaustive": False,
